@@ -120,6 +120,28 @@ def quiet():
         sys.stdout = old
 
 
+class CaseTimeout(Exception):
+    pass
+
+
+@contextlib.contextmanager
+def time_limit(seconds):
+    """Abort library code that loops forever (raises CaseTimeout in the main thread).
+    A timeout is never a violation: callers turn it into a Discard."""
+    import signal
+
+    def handler(signum, frame):
+        raise CaseTimeout()
+
+    old = signal.signal(signal.SIGALRM, handler)
+    signal.setitimer(signal.ITIMER_REAL, seconds)
+    try:
+        yield
+    finally:
+        signal.setitimer(signal.ITIMER_REAL, 0)
+        signal.signal(signal.SIGALRM, old)
+
+
 def attempt(fn, *a, **kw):
     """Call library code: ('ok', value) or ('exc', exception)."""
     try:
